@@ -54,18 +54,31 @@ def _nontrivial(op, ans):
     return not op.startswith('reset') and ans != 'bad-op'
 
 
-def _viol(stats):
-    out = []
+def _viol(stats, viol_file=None):
+    """violations from the STATS line plus the side file the harness appends to (and syncs) the
+    moment it finds one, so that a timed-out or crashed run still yields its failing inputs"""
+    out, seen = [], set()
+    def add(v):
+        k = (v.get('key'), v.get('desc'))
+        if k not in seen:
+            seen.add(k)
+            out.append(dict(key=v.get('key'), desc=v.get('desc'), replay=v.get('replay')))
+    if viol_file and os.path.exists(viol_file):
+        for line in open(viol_file, errors='replace'):
+            try:
+                add(json.loads(line))
+            except Exception:
+                pass
     if isinstance(stats, dict):
         for v in stats.get('violations') or []:
-            out.append(dict(key=v.get('key'), desc=v.get('desc'), replay=v.get('replay')))
+            add(v)
     return out
 
 
 def correspond(ctx):
     c = vlib.correspond(ctx, 'c03', 'C03', ['mode=corr'], canon=_canon, timeout=1500, nontrivial=_nontrivial)
     c['name'] = 'state+nodedb'
-    c['violations'] = _viol(c.get('stats'))
+    c['violations'] = _viol(c.get('stats'), os.path.join(ctx.work, 'c03.obs.viol'))
     return [c]
 
 
@@ -91,14 +104,54 @@ def search(ctx, hints):
                 stats = json.loads(line[6:])
             except Exception:
                 pass
-    for p in (ops, obs):
+    found = _viol(stats, obs + '.viol')
+    for p in (ops, obs, obs + '.viol'):
         if os.path.exists(p):
             os.remove(p)
+    race = None
+    if ctx.thorough():
+        race = _race_evidence(ctx)
     res = dict(evaluations=(stats.get('c03') or {}).get('prefix_checks', 0), distinct_nontrivial=(stats.get('c03') or {}).get('blocks', 0),
-               violations=_viol(stats), samples=[dict(search_stats=stats.get('c03'))], stats=stats.get('c03'))
+               violations=found, samples=[dict(search_stats=stats.get('c03'))], stats=stats.get('c03'))
+    if race is not None:
+        res['race_evidence'] = race
+        res['samples'].append(dict(race_evidence=race))
     if rc != 0:
         res['error'] = 'search harness exited %d: %s' % (rc, (se or so)[-800:])
     return res
+
+
+def _race_evidence(ctx):
+    """EVIDENCE, not proof: the state scenarios (with reader goroutines running while the node
+    commit writes) under a -race build.  Race reports are recorded, property failures count."""
+    import shutil
+    binp, log = vlib.go_build(ctx, vlib.HARNESS, './cmd/c03', 'c03race', race=True)
+    if not binp:
+        return dict(ok=False, note='race build failed: ' + log[-400:])
+    cwd = ctx.scratch('c03race')
+    obs = os.path.join(ctx.work, 'c03race.obs')
+    env = dict(VERIF_SEED=str(ctx.seed + 104729), VERIF_TIER='quick', GORACE='halt_on_error=0 exitcode=0', GOMEMLIMIT='8GiB')
+    rc, so, se = vlib.run([binp, 'ops=' + os.path.join(ctx.work, 'c03race.ops'), 'obs=' + obs, 'tier=quick', 'mode=search', 'readers=always'],
+                          cwd=cwd, env=env, timeout=2400)
+    shutil.rmtree(cwd, ignore_errors=True)
+    stats = {}
+    for line in so.split('\n'):
+        if line.startswith('STATS '):
+            try:
+                stats = json.loads(line[6:])
+            except Exception:
+                pass
+    races = se.count('WARNING: DATA RACE')
+    first = ''
+    if races:
+        i = se.find('WARNING: DATA RACE')
+        first = se[i:i + 1200]
+    viol = _viol(stats, obs + '.viol')
+    for p in (os.path.join(ctx.work, 'c03race.ops'), obs, obs + '.viol'):
+        if os.path.exists(p):
+            os.remove(p)
+    return dict(ok=(rc == 0), label='evidence (race detector run), not proof', data_race_reports=races, first_report=first,
+                reader_runs=(stats.get('c03') or {}).get('concurrent_reader_runs', 0), property_failures=[v['key'] for v in viol])
 
 
 def replay(ctx, rec):
